@@ -36,6 +36,7 @@ type Scenario struct {
 	// submitted, runs to completion before anything else happens (C02 reference).
 	AtomicRequests bool
 	Known          map[string]bool // signatures of listed known findings
+	ClockWhenIdle  bool            // the clock only advances while no client request is in flight
 	// Menu is a virtual client that, whenever idle, may issue ANY request of the
 	// menu, up to MenuDepth requests: enumerates operation sequences.
 	Menu      []ReqF
@@ -294,7 +295,13 @@ func (sc *Scenario) options(w *world.World, st *runState) []option {
 			opts = append(opts, option{"sweep " + name, 0, func() { st.sweeps[name]--; w.OpenGate(name) }})
 		}
 	}
-	if st.clockIx < len(sc.ClockMenu) {
+	inflight := false
+	for _, r := range st.infl {
+		if r != nil && !r.Done && !r.Lost {
+			inflight = true
+		}
+	}
+	if st.clockIx < len(sc.ClockMenu) && !(sc.ClockWhenIdle && inflight) {
 		t := sc.ClockMenu[st.clockIx]
 		opts = append(opts, option{fmt.Sprintf("clock %d", t), 0, func() { st.clockIx++; w.SetClock(t) }})
 	}
